@@ -51,6 +51,7 @@ def scenarios(tier):
     out.append(dict(name='silent-peer', kind='enum', runner='run_silent_peer', params=dict(thorough=thorough), weight=5))
     out.append(dict(name='adaptive', kind='enum', runner='run_adaptive', params=dict(thorough=thorough), weight=50))
     out.append(dict(name='partial-reads', kind='enum', runner='run_partial_reads', params=dict(), weight=10))
+    out.append(dict(name='keepalive-busy', kind='enum', runner='run_keepalive_busy', params=dict(), weight=10))
     return out
 
 
@@ -158,6 +159,70 @@ def run_partial_reads(params, known):
                             v['case'] = case
                             violations.append(v)
     return dict(name='partial-reads', evaluations=count, violations=violations, known=[], samples=[])
+
+
+def run_keepalive_busy(params, known):
+    '''"A KEEPALIVE is sent whenever the negotiated interval elapses with nothing else sent" -
+    also while the session is not idle: the endpoint has sent a bundle and the peer holds back
+    the acknowledgement for a multiple of the interval (or leaves a message half sent).  Time
+    advances from timer deadline to timer deadline; no two consecutive transmissions of the
+    endpoint may be further apart than the negotiated interval until the horizon.'''
+    violations = []
+    count = 0
+    for role in ('passive', 'active'):
+        for (own, peer) in ((2, 5), (5, 2), (3, 3)):
+            interval = min(own, peer)
+            for situation in ('ack-outstanding', 'partial-message-from-peer', 'idle'):
+                for delay in (0.5, 1.5, 3.5):
+                    count += 1
+                    case = dict(role=role, keepalive_own=own, keepalive_peer=peer, situation=situation, ack_after_intervals=delay)
+                    queued = (bytes(range(0xa0, 0xa3)).hex(),) if situation == 'ack-outstanding' else ()
+                    w = PeerWorld(dict(role=role, idle=0, keepalive=own, seg_mru=64, tx_init=64, queued=queued))
+                    w.peer_write(T.enc_contact(0) + T.enc_sess_init(peer, 64, 1000, b'dtn://p/'))
+                    w.quiesce()
+                    t0 = w.clock.now_us
+                    sent_at = [t0]          # times at which R wrote anything
+                    seen = len(w.out_octets)
+                    if situation == 'partial-message-from-peer':
+                        w.peer_write(T.enc_segment(3, 5, b'0123456789', [T.ext_total_length(10)])[:7])
+                        w.quiesce()
+                    t_ack = t0 + int(delay * interval * 1e6)
+                    horizon = t0 + int((delay + 2.5) * interval * 1e6)
+                    acked = False
+                    found = None
+                    guard = 0
+                    while guard < 200:
+                        guard += 1
+                        dl = w.next_deadline()
+                        nxt = horizon if dl is None else min(dl, horizon)
+                        if not acked and situation == 'ack-outstanding' and t_ack <= nxt:
+                            w.clock.now_us = max(w.clock.now_us, t_ack)
+                            w.peer_write(T.enc_ack(3, 1, 3))
+                            acked = True
+                        else:
+                            if nxt <= w.clock.now_us and dl is None:
+                                break
+                            w.clock.now_us = max(w.clock.now_us, nxt)
+                        w.quiesce()
+                        if len(w.out_octets) > seen:
+                            seen = len(w.out_octets)
+                            sent_at.append(w.clock.now_us)
+                        if w.r_closed() or w.clock.now_us >= horizon:
+                            break
+                    gaps = [b - a for (a, b) in zip(sent_at, sent_at[1:] + [w.clock.now_us])]
+                    worst = max(gaps) if gaps else 0
+                    if w.escaped:
+                        found = 'escaped %s: %s' % (w.escaped[-1][0], w.escaped[-1][2])
+                    elif w.r_closed():
+                        found = 'endpoint closed the connection'
+                    elif worst > interval * 1e6 + 1000:
+                        found = 'nothing transmitted for %.2f s although the negotiated keepalive interval is %d s (transmissions at %r s)' % (
+                            worst / 1e6, interval, [round((t - t0) / 1e6, 2) for t in sent_at])
+                    if found and len(violations) < 4:
+                        v = Violation(PROP, 'keepalive', 'keepalive-missing-while-not-idle' if situation != 'idle' else 'keepalive-missing', dict(), '%r: %s' % (case, found)).as_dict()
+                        v['case'] = case
+                        violations.append(v)
+    return dict(name='keepalive-busy', evaluations=count, violations=violations, known=[], samples=[])
 
 
 def run_adaptive(params, known):
